@@ -49,13 +49,24 @@ ZeroDivs(t) == IF IsLeafK(t.k) THEN 0 ELSE IF IsUn(t.k) THEN ZeroDivs(t.c)
 InexactNew(s, o) == LET consts(t) == {x \in SubtermSet(t) : x.k = "c"} IN
                     \E c \in consts(o) : (c.d = 0 /\ ~HasDigits(c)) \/ (HasDigits(c) /\ c.xf = 1 /\ c \notin consts(s))
 
+\* A step taken IN PLACE on a result that is not a proper tree (a node object under two parents - what an earlier step handed back):
+\* the structure clauses do not apply to it, but it still unfolds to an expression, and the rewrite of that expression must keep its
+\* value. Only reached when an earlier step broke C07; on trees the ordinary contract below applies.
+DagOK(h, root) == /\ root # 0
+                  /\ \A i \in Reach(h, root) : i \notin ReachAcc(h, Kids(h, i), {})          \* no cycle: the unfolding terminates
+                  /\ \A c \in DOMAIN ArityClauses(h, root) : ArityClauses(h, root)[c]
+SharedSourceVerdict(e, fValue) ==
+  IF ~fValue \/ e.res = 0 \/ ~DagOK(e.hb, e.work) \/ ~DagOK(e.ha, e.res) THEN {"harness_source_not_wf"} ELSE
+  LET s == TermOf(e.hb, e.work)  o == TermOf(e.ha, e.res) IN
+  IF s.k = "eq" \/ ~Finite(s) \/ ~Finite(o) \/ InexactNew(s, o) \/ Equiv(s, o) THEN {"harness_source_not_wf"} ELSE {"value", "harness_source_not_wf"}
+
 (* e: a recorded step. Fields: rule, opt, hb, src (root of source tree), work (root of the working clone),
    node (the node of the working clone the rule was applied to), outcome, ha, res (root of the result),
    printed-and-reparsed term `re` with reparse outcome. *)
 StepVerdict(e, fValue, fSol, fRt) ==
   IF e.outcome # "ok" THEN {"raises_after_can_apply"} ELSE
   IF e.res = 0 THEN {"result_not_expression"} ELSE
-  IF ~WFExpr(e.hb, e.work) THEN {"harness_source_not_wf"} ELSE
+  IF ~WFExpr(e.hb, e.work) THEN SharedSourceVerdict(e, fValue) ELSE
   LET wfo == WFExprFailing(e.ha, e.res)
       \* the tree the rewritten copy was cloned from: the harness's source tree, and - for the balanced move, which makes its own copy of
       \* the tree it is handed and rewrites that - also the tree it was handed (every other rule rewrites the tree it is handed in place)
